@@ -32,6 +32,23 @@ def adjusted : List Int → Int
 def adjAt (raw : List Pt) (t : Int) : Int :=
   adjusted ((raw.filter fun p => p.1 ≤ t).map (·.2))
 
+/-- the batches of downsampleRawLoop before the NaN filter: `batchSize` samples, extended by the
+    following samples up to the end of the window of the batch's last sample (same control flow
+    as `rawLoop`, without the aggregation) -/
+def rawBatches (r : Int) (batchSize : Nat) : Nat → List Raw → List (List Raw)
+  | _, [] => []
+  | 0, _ :: _ => []
+  | fuel + 1, data =>
+    let j := min batchSize data.length
+    let head := data.take j
+    let tail := data.drop j
+    match head.getLast? with
+    | none => []
+    | some l =>
+      let curW := currentWindow l.1 r
+      (head ++ tail.takeWhile fun s => s.1 ≤ curW) ::
+        rawBatches r batchSize fuel (tail.dropWhile fun s => s.1 ≤ curW)
+
 /-- timestamps strictly increase -/
 def Sorted (l : List Pt) : Prop := l.Pairwise fun a b => a.1 < b.1
 
